@@ -145,26 +145,31 @@ class Env:
             depth -= 1
         return node
 
-    def expand(self, node: ast.AST, depth: int = 6) -> ast.AST:
-        """Deep substitution of locals by their definitions (bounded)."""
+    def expand(self, node: ast.AST, depth: int = 6, keep=()) -> ast.AST:
+        """Deep substitution of locals by their definitions (bounded; names in `keep` and
+        self-referential re-definitions such as `axis = f(axis)` are left as names)."""
         env = self
 
         class T(ast.NodeTransformer):
-            def __init__(self, d):
+            def __init__(self, d, stack):
                 self.d = d
+                self.stack = stack
 
             def visit_Name(self, n):
-                if isinstance(n.ctx, ast.Load) and n.id in env.defs and self.d > 0:
+                if (isinstance(n.ctx, ast.Load) and n.id in env.defs and self.d > 0
+                        and n.id not in keep and n.id not in self.stack):
                     v = env.defs[n.id]
                     if isinstance(v, (TupleItem, IterItem)):
                         return n
-                    return T(self.d - 1).visit(_clone(v))
+                    if n.id in {x.id for x in ast.walk(v) if isinstance(x, ast.Name)}:
+                        return n
+                    return T(self.d - 1, self.stack | {n.id}).visit(_clone(v))
                 return n
 
             def visit_Lambda(self, n):
                 return n
 
-        return T(depth).visit(_clone(node))
+        return T(depth, frozenset()).visit(_clone(node))
 
 
 class TupleItem(ast.AST):
